@@ -17,8 +17,11 @@ import traceback
 from mc import common
 
 KNOWN = os.path.join(common.VERIF, 'known_findings.json')
-EVID = os.path.join(common.VERIF, 'evidence')
-REPLAYS = os.path.join(common.VERIF, 'replays')
+# VERIF_OUT_DIR redirects evidence and replay files (used when a seeded change is evaluated, so that the
+# committed evidence of the unchanged tree is not overwritten)
+_OUT = os.environ.get('VERIF_OUT_DIR')
+EVID = os.path.join(_OUT, 'evidence') if _OUT else os.path.join(common.VERIF, 'evidence')
+REPLAYS = os.path.join(_OUT, 'replays') if _OUT else os.path.join(common.VERIF, 'replays')
 
 
 def load_known():
